@@ -46,11 +46,12 @@ Definition cv_count (kids : list cv_child) (nm : cv_name) : N :=
   | _ => vlen (filter (fun k => cv_name_eqb (cv_cname k) nm) kids)
   end.
 
-(* while (countDupes(node, shapeName + dup) > 1) { dupCount++; dup = "_" + to_string(dupCount); } *)
+(* while (countDupes(node, shapeName + dup) > 0) { dupCount++; dup = "_" + to_string(dupCount); }
+   (the test was "> 1" before the repair of C12-rename-candidate-taken) *)
 Fixpoint cv_find_suffix (fuel : nat) (kids : list cv_child) (base : cv_name) (c : N) : res N :=
   match fuel with
   | O => OutOfFuel
-  | S f => if 1 <? cv_count kids (cv_suffixed base c) then cv_find_suffix f kids base (c + 1) else Ok c
+  | S f => if 0 <? cv_count kids (cv_suffixed base c) then cv_find_suffix f kids base (c + 1) else Ok c
   end.
 
 (* the loop over node->childRefs.  [done]: the children already visited (with their current names),
